@@ -38,7 +38,7 @@ def brief(prefix, k=14):
     return out
 
 
-def run(prop, tier, profile, focus, runs_q, runs_t, steps):
+def run(prop, tier, profile, focus, runs_q, runs_t, steps, mbt=False):
     t0 = time.time()
     thorough = tier == "thorough"
     verdict = vlib.Verdict(prop)
@@ -82,6 +82,10 @@ def run(prop, tier, profile, focus, runs_q, runs_t, steps):
                 verdict.count(sig)
         if by:
             log("[%s] rejections by signature: %s" % (prop, by))
+        mbt_cov = None
+        if mbt:
+            import servermbt
+            mbt_cov = servermbt.run(prop, tier, verdict, work, classify, brief, focus)
         cov = {
             "states": max(1, checked), "transitions": max(1, checked), "traces_validated_against_impl": acc,
             "evaluations": summ["requests"], "distinct_nontrivial": summ["requests_ok"],
@@ -90,6 +94,13 @@ def run(prop, tier, profile, focus, runs_q, runs_t, steps):
             "servers": summ["runs"], "operations": summ["ops"], "runs_rejected": len(rej), "rejections_by_signature": by,
             "samples": [{"trace_prefix": [e for e in events[:40] if e.get("ev") != "obs"][:10]}], "exhaustive": False,
         }
+        if mbt_cov:
+            cov["mbt_every_transition_of_bounded_permission_model"] = mbt_cov
+            cov["evaluations"] += mbt_cov["requests"]
+            cov["distinct_nontrivial"] += mbt_cov["requests_performed"]
+            cov["traces_validated_against_impl"] += mbt_cov["accepted"]
+            cov["states"] += mbt_cov["events"]
+            cov["transitions"] += mbt_cov["events"]
         vlib.write_evidence(prop, tier, "model_checking", cov, [
             "request sequences are sampled (seeded), one client at a time; 2 users + the server admin, 2 database names "
             "(C26: 14 path-like names); sessions are tracked from login/logout because they are not observable",
